@@ -145,7 +145,8 @@ def frames(prop, tier, seed):
     write_only = {f for f in writes if f not in reads}
     carried = sorted(f for f in all_read if f in writes and f not in initialised)
     # what the facade resets (syntactically: `self.lex.<f> = <constant>` at the top level of the method)
-    def resets_of(fi):
+    def resets_of(fi, depth=0):
+        """fields of self.lex assigned a constant by the method, or by a helper method of the same class it calls"""
         out = set()
         for st in ast.walk(fi.node):
             if isinstance(st, ast.Assign) and isinstance(st.value, ast.Constant):
@@ -153,6 +154,12 @@ def frames(prop, tier, seed):
                     c = chain(t) if isinstance(t, ast.Attribute) else None
                     if c and c[:-1] == ['self', 'lex']:
                         out.add(c[-1])
+            if isinstance(st, ast.Call) and isinstance(st.func, ast.Attribute) and depth < 2:
+                c = chain(st.func)
+                if c and len(c) == 2 and c[0] == 'self':
+                    helper = src.funcs.get('smartquery.sq_parser:SqParser.' + c[1])
+                    if helper is not None and helper is not fi:
+                        out |= resets_of(helper, depth + 1)
         return out
     parse_fi = src.funcs.get('smartquery.sq_parser:SqParser.parse')
     parse_resets = resets_of(parse_fi) if parse_fi else set()
